@@ -1,6 +1,6 @@
 (** Correspondence glue for unit `upacker` (C10): a case is what the Go harness logged. *)
 From Coq Require Import List ZArith Bool String.
-From V Require Import Gen.Params Lib.Hex Wire.Varint PktProt.PktNum.
+From V Require Import Gen.Params Lib.Hex Wire.Varint PktProt.PktNum PktProt.InitialProtect.
 From V Require Export UPacker.Model.   (* the case terms use the model's constructors (bkind, dgres) *)
 Import ListNotations.
 Open Scope Z_scope.
@@ -22,6 +22,12 @@ Inductive case :=
          (* observed: (packet number, encoding length) of every client Initial of ONE Dial that was
             re-created after a Version Negotiation packet, both connections, in sending order *)
          (obsPackets : list (Z * Z))
+| WireCase (ver : Z) (dcid scid token : string) (lf pn pnLen : Z) (payload : string)
+           (* observed: the protected packet as it left the packer (header through AEAD tag) *)
+           (obsPacket : string)
+| PayloadCase (hello : string) (frames : list (Z * Z)) (pad : Z)
+              (* observed: the decrypted frame payload of a pass-through datagram *)
+              (obsPayload : string)
 | HeaderCase (ver : Z) (dcid scid token : string) (lf pn pnLen : Z)
              (* observed: the packet's header bytes after the independent observer removed header protection *)
              (obsHeader : string).
@@ -84,7 +90,7 @@ Definition dial_obs (specDcid specScid ipn : Z) (lens : list Z) (single : Z)
   {| do_dcid := d; do_scid := s; do_pn := pn; do_pnLen := pl; do_token := tok;
      do_hdr := hdrLen d s (tokLenOf tok) pl |}.
 
-Inductive obs := FObs (o : fobs) | DObs (o : dobs) | VObs (rejected : bool) | HObs (cls : Z) (bytes : list Z) | NObs (pkts : list (Z * Z)).
+Inductive obs := FObs (o : fobs) | DObs (o : dobs) | VObs (rejected : bool) | HObs (cls : Z) (bytes : list Z) | NObs (pkts : list (Z * Z)) | WObs (cls : Z) (pkt : list Z) | PObs (payload : list Z).
 
 Definition model_obs (c : case) : obs :=
   match c with
@@ -99,6 +105,12 @@ Definition model_obs (c : case) : obs :=
        from the spec's InitPacketNumber *)
     NObs (map (fun i => let pn := initialPN ipn + i in (pn, peekPnLen lens single (pnBase ipn) pn))
               (zseq (List.length ops) 0))
+  | WireCase ver dcid scid token lf pn pnLen payload _ =>
+    (* serialise the header (C08's codec), protect with the client Initial keys of the DCID and
+       version (C05's Gallina HKDF / AES-128-GCM / AES-ECB) *)
+    let '(c, hdr) := initialHeaderBytes ver (hx dcid) (hx scid) (hx token) lf pn pnLen in
+    WObs c (initial_protect (ver =? H_Version2) true (hx dcid) hdr (hx payload) pn (Z.to_nat pnLen))
+  | PayloadCase hello frames pad _ => PObs (passPayload (hx hello) frames pad)
   | HeaderCase ver dcid scid token lf pn pnLen _ =>
     let '(c, b) := initialHeaderBytes ver (hx dcid) (hx scid) (hx token) lf pn pnLen in HObs c b
   end.
@@ -117,6 +129,8 @@ Definition check_case (c : case) : bool :=
     && ((specDcid >? 0) || ((upMinConnectionIDLenInitial <=? od) && (od <=? upMaxConnIDLen)))
   | ValidateCase _ _ _ _ _ _ _ _ orej, VObs r => Bool.eqb r orej
   | VNCase _ _ _ ops, NObs m => list_eqb pair_eqb m ops
+  | WireCase _ _ _ _ _ _ _ _ ow, WObs c b => (c =? 0) && zeqb_list b (hx ow)
+  | PayloadCase _ _ _ op, PObs b => zeqb_list b (hx op)
   | HeaderCase _ _ _ _ _ _ _ oh, HObs c b => (c =? 0) && zeqb_list b (hx oh)
   | _, _ => false
   end.
